@@ -135,6 +135,22 @@ def small_bases(rng, progs, kinds, n=3):
 # ---------------------------------------------------------------------------------------------------
 # the streams
 
+def half_stream(rng, pid, kinds=("iter", "iterref", "vec", "slice", "array")):
+    """buffered chunk iterators whose previous chunk was only partly consumed (stale slots in a reused buffer)"""
+    cases = []
+    i = 0
+    for kind in kinds:
+        for L in range(1, 7):
+            for n in (2, 3, 4):
+                for ks in itertools.product(["0", "1", "all"], repeat=3):
+                    c = make_source(rng, "%s-half%d" % (pid, i), kind, L, hint=rng.choice(["exact", "inexact"]))
+                    c.threads = [["bufnew %d" % n] + ["bufnext %s" % k for k in ks] + ["bufnext all"]]
+                    c.owner = rng.choice(["drop", "intoseq all"])
+                    cases.append(c)
+                    i += 1
+    return cases
+
+
 def pulls_stream(rng, tier, pid, extra=None, n_random=None, prof=None, exh=True):
     n_random = n_random if n_random is not None else (1500 if tier == "quick" else 60000)
     cases = []
@@ -181,20 +197,10 @@ def stream_for0(pid, tier, seed):
     defects = corpus(["defects.cases", "regress.cases"])
     big = tier != "quick"
     if pid in ("C01", "C02", "C04"):
-        return defects + pulls_stream(rng, tier, pid)
+        return defects + pulls_stream(rng, tier, pid) + half_stream(rng, pid)
     if pid == "C03":
         cases = defects + pulls_stream(rng, tier, pid, prof=dict(loops=False, query=False, drain=0.2))
-        # buffered chunk iterators whose previous chunk was only partly consumed (stale slots in a reused buffer)
-        i = 0
-        for kind in ["iter", "iterref", "vec", "slice", "array"]:
-            for L in range(1, 7):
-                for n in (2, 3, 4):
-                    for ks in itertools.product(["0", "1", "all"], repeat=3):
-                        c = make_source(rng, "C03-half%d" % i, kind, L, hint=rng.choice(["exact", "inexact"]))
-                        c.threads = [["bufnew %d" % n] + ["bufnext %s" % k for k in ks] + ["bufnext all"]]
-                        c.owner = rng.choice(["drop", "intoseq all"])
-                        cases.append(c)
-                        i += 1
+        cases += half_stream(rng, pid)
         return cases
     if pid == "C05":
         cases = defects + pulls_stream(rng, tier, pid, prof=dict(nonfused=False), exh=False, n_random=800 if not big else 30000)
@@ -249,6 +255,7 @@ def stream_for0(pid, tier, seed):
     if pid in ("C08", "C15"):
         prof = dict(kinds=["vec", "array", "iter"], skip=(pid == "C08" and False), lens=[0, 1, 2, 3, 5, 8], drain=0.3)
         cases = defects + pulls_stream(rng, tier, pid, prof=prof, n_random=1500 if not big else 60000, exh=False)
+        cases += half_stream(rng, pid, kinds=("iter", "vec", "array"))
         # every ending at every progress point, sequentially
         for kind in ["vec", "array", "iter"]:
             for n in [0, 1, 2, 5]:
